@@ -12,7 +12,10 @@ RULE = ("sets reached by sequences of addfilter / updatefilter / replacefilter /
         "enabled status, descriptions, requires and per-filter trees must be equal and rendering the reloaded set must be a fixed point; "
         "non-trivial = set with ≥ 2 filters or a disabled / described filter")
 
-NAME_PIECES = ["rule", "é", "€", " ", "#", '"', "x", "1", ":", ";", "{", "Filter", "Description", "if false", "\\"]
+NAME_PIECES = ["rule", "é", "€", " ", "#", '"', "x", "1", ":", ";", "{", "Filter", "Description", "if false", "\\",
+               # characters whose UTF-8 form ends in a byte that is white space in some 8-bit code page (0x85 NEL, 0xA0 NBSP) or is
+               # itself an unusual blank: a name must come back whole, whatever its last character
+               "à", "Å", "ą", "Ġ", "丠", "\u00a0x", "x\u2003y", "\u0085z", "ı", "ﬀ"]
 PREFIXES = [("# Filter: ", "# Description: "), ("#F:", "#D:"), ("# name = ", "# about = "), ("#§ ", "#¶ "),
             ("# [rule] ", "# (about) "), ("# name? ", "# desc+ "), ("# rule.* ", "# d|x: "), ("# \\d ", "# ^$ "), ("# Rule (auto): ", "# {1} ")]
 
@@ -126,7 +129,11 @@ def run(ctx):
         fs, pref = build(r)
         evals += 1
         nontriv += 1 if (len(fs.filters) > 1 or any(not f["enabled"] or f.get("description") for f in fs.filters)) else 0
-        bad, text = check(fs, pref)
+        try:
+            bad, text = check(fs, pref)
+        except Exception as e:  # noqa
+            text = str(fs)
+            bad = "saving / loading back raised %s: %s" % (type(e).__name__, str(e)[:120])
         texts.append(text.encode("utf-8"))
         if bad:
             viol.append({"what": bad, "input_hex": text.encode("utf-8").hex(), "input": text[:700], "prefixes": pref})
